@@ -143,6 +143,17 @@ def run_cmp(case, ctx):
         forms = cross_forms + [("scalar", case["scalar"], [case["scalar"]] * len(a)), ("self", va, a)]
         if k == "date" and any(x is not None for x in a):
             forms.append(("iso-string", case["iso"], [case["iso"]] * len(a)))
+        if k == "date":
+            # text that is no ISO date: serif may refuse the comparison; whatever it returns, None positions compare False
+            for txt in ("n/a", "", "01/06/2021"):
+                ctx.ev()
+                try:
+                    got_ = list(op(va, txt))
+                except Exception:  # noqa: BLE001
+                    continue
+                bad_ = [i for i, x in enumerate(a) if x is None and got_[i] is not False]
+                if bad_:
+                    return ctx.fail("compare/non-iso-text/none-not-false", f"{a} {name} {txt!r}: position {bad_[0]} is {got_[bad_[0]]!r}")
         for form, rhs, ys in forms:
             ctx.ev()
             try:
